@@ -111,6 +111,23 @@ fn history_body(src: &mut Src, st: &mut Stats) -> CaseResult {
             _ => gen_doc(src, &DocOpts::default()),
         });
     }
+    // sometimes two of the documents are "the same" under a tolerant notion of equality and
+    // different as JSON: every integer leaf moved beyond 2^53, where neighbours share a double
+    let mut lifted = false;
+    if src.chance(70) {
+        lifted = true;
+        fn lift(v: &J, add: i128) -> J {
+            match v {
+                J::Num(crate::model::N::Int(i)) if i.abs() < 1000 => J::Num(crate::model::N::Int((1i128 << 53) + 2 * i.abs() + add)),
+                J::Arr(a) => J::Arr(a.iter().map(|x| lift(x, add)).collect()),
+                J::Obj(o) => J::Obj(o.iter().map(|(k, x)| (k.clone(), lift(x, add))).collect()),
+                other => other.clone(),
+            }
+        }
+        let base = docs[0].clone();
+        docs[0] = lift(&base, 0);
+        docs[1] = lift(&base, 1);
+    }
     let doc_texts: Vec<String> = docs.iter().map(|d| d.to_json()).collect();
     let shared: Vec<jmespath::Rcvar> = doc_texts.iter().map(|t| jmespath::Rcvar::new(jmespath::Variable::from_json(t).unwrap())).collect();
     let values: Vec<serde_json::Value> = doc_texts.iter().map(|t| serde_json::from_str(t).unwrap()).collect();
@@ -211,6 +228,26 @@ fn history_body(src: &mut Src, st: &mut Stats) -> CaseResult {
                         Outcome::Err(format!("{} off={} line={} col={} expr={:?}", c.detail, c.offset, c.line, c.column, c.expression))
                     }
                 };
+                // a re-used (cloned, long-lived) expression behaves like a freshly compiled one
+                if let Ok(fresh) = jmespath::compile(&exprs[*i]) {
+                    let fr = catch(std::panic::AssertUnwindSafe(|| fresh.search(&shared[j])));
+                    let fo = match fr {
+                        Err(p) => return Err(Failure::new("history", "panic", p, case(&log, &exprs, &doc_texts))),
+                        Ok(Ok(v)) => Outcome::Val(var_to_j(&v)),
+                        Ok(Err(e)) => {
+                            let c = classify(&e);
+                            Outcome::Err(format!("{} off={} line={} col={} expr={:?}", c.detail, c.offset, c.line, c.column, c.expression))
+                        }
+                    };
+                    if !outcome_eq(&fo, &out) {
+                        return Err(Failure::new(
+                            "history",
+                            "reused-expression-differs-from-fresh",
+                            format!("search of e{} on d{} through a long-lived handle gave {} but a freshly compiled expression gives {}", i, j, show(&out), show(&fo)),
+                            case(&log, &exprs, &doc_texts),
+                        ));
+                    }
+                }
                 let key = (*i, j);
                 match table.get(&key) {
                     Some(prev) => {
@@ -230,6 +267,11 @@ fn history_body(src: &mut Src, st: &mut Stats) -> CaseResult {
                     }
                     None => {
                         // first observation: must agree with the reference evaluation
+                        // (integers lifted beyond 2^53 are outside the reference model's well-separated numbers)
+                        if lifted && j < 2 {
+                            table.insert(key, out.clone());
+                            continue;
+                        }
                         if let Ok(tree) = refparse::parse(&exprs[*i], Mode::RelaxedExpref) {
                             let mut cx = refeval::Ctx::default();
                             let want = refeval::eval(&tree, &docs[j], &mut cx);
